@@ -498,6 +498,7 @@ pub fn case_damage(scratch: &Path, meta: usize, id: &str, seed: u64, len: usize,
                         r.spec.queues.insert(name.clone(), crate::spec::SQueue { next: q.next(), recs: q.recs.clone(), files: vec![0; q.recs.len()], incarnation: 1 });
                     }
                     let mut appended2 = appended.clone();
+                    let mut cont_new: HashSet<(String, u64, Vec<u8>)> = HashSet::new();
                     let mut batches2: Vec<Vec<(u64, Vec<u8>)>> = Vec::new();
                     let mut bq: Vec<String> = Vec::new();
                     let ccfg = GenCfg { allow_reopen: false, allow_rejected: false, allow_persist: false, max_queues: 1, big_weight: 8, ..Default::default() };
@@ -527,6 +528,7 @@ pub fn case_damage(scratch: &Path, meta: usize, id: &str, seed: u64, len: usize,
                             let recs: Vec<(u64, Vec<u8>)> = payloads.iter().enumerate().map(|(i, p)| (last + 1 - n + i as u64, p.bytes())).collect();
                             for (p, b) in &recs {
                                 appended2.insert((q.clone(), *p, b.clone()));
+                                cont_new.insert((q.clone(), *p, b.clone()));
                             }
                             if recs.len() >= 2 {
                                 batches2.push(recs);
@@ -564,15 +566,15 @@ pub fn case_damage(scratch: &Path, meta: usize, id: &str, seed: u64, len: usize,
                                         if final_spec.queues.get(&bt.q).map(|s| s.incarnation) != Some(bt.incarnation) {
                                             continue;
                                         }
-                                        // records of the batch that the FIRST recovery had already lost do not count:
-                                        // the continuation appends at the freed positions, and a new record with the
-                                        // same position and the same (e.g. empty) payload is not the old one
+                                        // a record that the first recovery had lost and that the CONTINUATION itself
+                                        // appended again (same position, same - e.g. empty - payload) is a new record,
+                                        // not the old one; an old record that comes back by itself does count
                                         let after_first: Vec<bool> = match obs.get(&bt.q) {
                                             Some(q1) => bt.recs.iter().map(|b| q1.recs.contains(b)).collect(),
                                             None => vec![false; bt.recs.len()],
                                         };
                                         if let Some(q) = obs2.get(&bt.q) {
-                                            let present: Vec<bool> = bt.recs.iter().zip(after_first.iter()).map(|(b, was)| *was && q.recs.contains(b)).collect();
+                                            let present: Vec<bool> = bt.recs.iter().zip(after_first.iter()).map(|(b, was)| q.recs.contains(b) && (*was || !cont_new.contains(&(bt.q.clone(), b.0, b.1.clone())))).collect();
                                             let first_true = present.iter().position(|p| *p).unwrap_or(present.len());
                                             if present[first_true..].iter().any(|p| !*p) {
                                                 r.violate("C12", format!("{}; after a continuation and a second restart: a batch of queue {:?} was recovered with a hole or a missing tail: {:?}", ctx, bt.q, present));
